@@ -2,6 +2,8 @@
 //   - x.Lock() / x.RLock()            -> simrt.Lock(x.TryLock / x.TryRLock, "file:line")
 //   - x.Unlock() / x.RUnlock()        -> simrt.Unlock(x.Unlock / x.RUnlock)   (also in defer statements)
 //   - simrt.Yield("file:line") is inserted before every statement of every block, case and comm clause
+//   - a select with two or more communication clauses is preceded by non-blocking polls of its cases,
+//     one at a time in the order simrt.SelectOrder returns (see below)
 //
 // The rewrite is syntactic (go/ast, no type information): in the instrumented files every zero-argument
 // method call named Lock, RLock, Unlock or RUnlock is a sync.Mutex / sync.RWMutex operation. If a file
@@ -117,6 +119,112 @@ func rewrite(simrtPath, file string) error {
 		return true
 	})
 
+	// select statements with two or more communication clauses: which ready case is taken is the Go
+	// runtime's (random) decision; the rewrite polls the cases one at a time in an order supplied by
+	// simrt (nested non-blocking selects in which all but one channel are nil) before the original,
+	// blocking select, so the choice among simultaneously ready cases belongs to the simulation
+	selects := 0
+	var lists []*[]ast.Stmt
+	ast.Inspect(f, func(n ast.Node) bool {
+		switch b := n.(type) {
+		case *ast.BlockStmt:
+			lists = append(lists, &b.List)
+		case *ast.CaseClause:
+			lists = append(lists, &b.Body)
+		case *ast.CommClause:
+			lists = append(lists, &b.Body)
+		}
+		return true
+	})
+	commWith := func(comm ast.Stmt, ch ast.Expr) ast.Stmt {
+		// a copy of the communication statement with its channel expression replaced
+		switch c := comm.(type) {
+		case *ast.SendStmt:
+			return &ast.SendStmt{Chan: ch, Arrow: c.Arrow, Value: c.Value}
+		case *ast.ExprStmt:
+			u := c.X.(*ast.UnaryExpr)
+			return &ast.ExprStmt{X: &ast.UnaryExpr{Op: token.ARROW, X: ch, OpPos: u.OpPos}}
+		case *ast.AssignStmt:
+			u := c.Rhs[0].(*ast.UnaryExpr)
+			return &ast.AssignStmt{Lhs: c.Lhs, Tok: c.Tok, TokPos: c.TokPos, Rhs: []ast.Expr{&ast.UnaryExpr{Op: token.ARROW, X: ch, OpPos: u.OpPos}}}
+		}
+		panic("unknown communication clause")
+	}
+	chanOf := func(comm ast.Stmt) ast.Expr {
+		switch c := comm.(type) {
+		case *ast.SendStmt:
+			return c.Chan
+		case *ast.ExprStmt:
+			if u, ok := c.X.(*ast.UnaryExpr); ok && u.Op == token.ARROW {
+				return u.X
+			}
+		case *ast.AssignStmt:
+			if len(c.Rhs) == 1 {
+				if u, ok := c.Rhs[0].(*ast.UnaryExpr); ok && u.Op == token.ARROW {
+					return u.X
+				}
+			}
+		}
+		return nil
+	}
+	intLit := func(i int) ast.Expr { return &ast.BasicLit{Kind: token.INT, Value: strconv.Itoa(i)} }
+	for k := len(lists) - 1; k >= 0; k-- { // inner lists first: bodies are shared between the copies
+		list := *lists[k]
+		for i, st := range list {
+			ss, ok := st.(*ast.SelectStmt)
+			if !ok {
+				continue
+			}
+			var comms []*ast.CommClause
+			var deflt *ast.CommClause
+			good := true
+			for _, cl := range ss.Body.List {
+				cc := cl.(*ast.CommClause)
+				if cc.Comm == nil {
+					deflt = cc
+					continue
+				}
+				if chanOf(cc.Comm) == nil {
+					good = false
+				}
+				comms = append(comms, cc)
+			}
+			if !good || len(comms) < 2 {
+				continue
+			}
+			selects++
+			id := selects
+			name := func(j int) *ast.Ident { return ast.NewIdent(fmt.Sprintf("_simc%d_%d", id, j)) }
+			ord := ast.NewIdent(fmt.Sprintf("_simord%d", id))
+			blk := &ast.BlockStmt{}
+			for j, cc := range comms {
+				blk.List = append(blk.List, &ast.AssignStmt{Lhs: []ast.Expr{name(j)}, Tok: token.DEFINE, Rhs: []ast.Expr{chanOf(cc.Comm)}})
+			}
+			blk.List = append(blk.List, &ast.AssignStmt{Lhs: []ast.Expr{ord}, Tok: token.DEFINE,
+				Rhs: []ast.Expr{&ast.CallExpr{Fun: sel("SelectOrder"), Args: []ast.Expr{intLit(len(comms)), site(ss)}}}})
+			// the original select over the evaluated channels
+			final := &ast.SelectStmt{Body: &ast.BlockStmt{}}
+			for j, cc := range comms {
+				final.Body.List = append(final.Body.List, &ast.CommClause{Comm: commWith(cc.Comm, name(j)), Body: cc.Body})
+			}
+			if deflt != nil {
+				final.Body.List = append(final.Body.List, &ast.CommClause{Body: deflt.Body})
+			}
+			var inner ast.Stmt = final
+			for level := len(comms) - 1; level >= 0; level-- {
+				poll := &ast.SelectStmt{Body: &ast.BlockStmt{}}
+				for j, cc := range comms {
+					pick := &ast.CallExpr{Fun: sel("Pick"), Args: []ast.Expr{name(j), ord, intLit(level), intLit(j)}}
+					poll.Body.List = append(poll.Body.List, &ast.CommClause{Comm: commWith(cc.Comm, pick), Body: cc.Body})
+				}
+				poll.Body.List = append(poll.Body.List, &ast.CommClause{Body: []ast.Stmt{inner}})
+				inner = poll
+			}
+			blk.List = append(blk.List, inner)
+			list[i] = blk
+		}
+	}
+
 	// import
 	imp := &ast.ImportSpec{Path: &ast.BasicLit{Kind: token.STRING, Value: strconv.Quote(simrtPath)}}
 	added := false
@@ -142,6 +250,6 @@ func rewrite(simrtPath, file string) error {
 	if err := os.WriteFile(file, buf.Bytes(), 0o644); err != nil {
 		return err
 	}
-	fmt.Printf("simrewrite: %s: %d mutex operations, %d yields\n", base, locks, yields)
+	fmt.Printf("simrewrite: %s: %d mutex operations, %d yields, %d selects\n", base, locks, yields, selects)
 	return nil
 }
